@@ -385,6 +385,119 @@ pub fn run(tier: Tier) -> i32 {
         extra: vec![],
     });
 
+    // a file of 160 KiB (beyond the 64 KiB block sizes of readers): truncations and extensions around every
+    // multiple of 4 096 and 65 536 bytes from both ends, every value boundary near them, and a coarse grid
+    {
+        let n_vals = 20_000usize;
+        let arr = Array::new((0..n_vals).map(|x| x as f64 + 0.5).collect::<Vec<_>>(), vec![n_vals]).expect("shape");
+        let mut big = Vec::new();
+        arr.write_npy(&mut big).expect("write");
+        let len = big.len();
+        let mut offs: std::collections::BTreeSet<usize> = Default::default();
+        for k in 0..=len / 4096 {
+            for base in [k * 4096, len.saturating_sub(k * 4096), 128 + k * 4096, 128 + k * 65_536, len.saturating_sub(k * 65_536)] {
+                for d in 0..=9usize {
+                    for o in [base.saturating_sub(d), base + d] {
+                        if o < len {
+                            offs.insert(o);
+                        }
+                    }
+                }
+            }
+        }
+        for o in (0..len).step_by(997) {
+            offs.insert(o);
+        }
+        // the prefix that keeps exactly N - 8192 values, N - 16384 values, ...
+        for k in 1..=2usize {
+            offs.insert(len - k * 65_536);
+        }
+        let offs: Vec<usize> = offs.into_iter().collect();
+        let res = par_map(offs.len(), |i| {
+            let at = offs[i];
+            let r = catch(|| Array::read_npy(&big[..at]).map(|a| a.shape().to_vec()));
+            match r {
+                Ok(Err(_)) => None,
+                other => Some((
+                    "C16|lib|damaged-accepted|big-file-truncated".to_string(),
+                    format!("the first {at} of {len} bytes of a 20 000-value npy file: read_npy returned {other:?}, expected an error"),
+                    J::obj([("kind", J::s("c16-big")), ("truncate_at", J::u(at))]),
+                )),
+            }
+        });
+        for v in res.into_iter().flatten() {
+            rep.violation(v.0, v.1, v.2);
+        }
+        let mut n_ext = 0u64;
+        for n in EXT_LENGTHS {
+            for f in [0usize, 1, 4] {
+                n_ext += 1;
+                let mut v = big.clone();
+                v.extend((0..n).map(|i| filler_byte(f, i)));
+                if !matches!(catch(|| Array::read_npy(&v[..]).map(|a| a.shape().to_vec())), Ok(Err(_))) {
+                    rep.violation("C16|lib|damaged-accepted|big-file-extended", format!("a 20 000-value npy file followed by {n} bytes ({}) is accepted", FILLERS[f]), J::obj([("kind", J::s("c16-big")), ("extend", J::u(n)), ("filler", J::u(f))]));
+                }
+            }
+        }
+        // through the binary: a few of the truncations and all extension lengths
+        let mut cj: Vec<(Vec<u8>, usize, String)> = Vec::new();
+        for at in [len - 1, len - 8, len - 65_536, len - 65_536 - 8, 128 + 65_536, 128 + 65_535, 128 + 8192 * 8, 4096, 129] {
+            for c in 0..3 {
+                cj.push((big[..at].to_vec(), c, format!("20 000-value npy file truncated to {at} bytes")));
+            }
+        }
+        for n in [1usize, 7, 8, 16, 4096] {
+            let mut v = big.clone();
+            v.extend((0..n).map(|i| filler_byte(0, i)));
+            for c in 0..3 {
+                cj.push((v.clone(), c, format!("20 000-value npy file + {n} bytes")));
+            }
+        }
+        let res = par_map(cj.len(), |i| eval_cli(&cj[i].0, CONSUMERS[cj[i].1], &cj[i].2, "big-file", &scratch));
+        for v in res.into_iter().flatten() {
+            // keep replay records small
+            rep.violation(v.0, v.1, J::obj([("kind", J::s("c16-big-cli"))]));
+        }
+        rep.part(Part {
+            name: "lib+cli: a 160 KiB npy file".into(),
+            evaluations: offs.len() as u64 + n_ext + cj.len() as u64,
+            nontrivial: offs.len() as u64 + n_ext + cj.len() as u64,
+            note: format!("20 000 values: {} truncation offsets (within 9 bytes of every multiple of 4 096 / 65 536 from both ends and from the data start, plus every 997th), {} extensions, {} runs of view/fold/stat", offs.len(), n_ext, cj.len()),
+            exhaustive: true,
+            extra: vec![],
+        });
+    }
+
+    // declared shapes whose product overflows 64 bits and is congruent to the number of values modulo 2^64
+    {
+        let np = Spelling::numpy();
+        let mut oj: Vec<(Vec<u8>, String)> = vec![
+            (b"#SHAPE=<4294967296/4294967296>\n\n".to_vec(), "text shape 2^32 x 2^32 with no values".into()),
+            (b"#SHAPE=<3689348814741910325/5>\n1 2 3 4 5 6 7 8 9\n".to_vec(), "text shape with product 2^64 + 9 and 9 values".into()),
+            (b"#SHAPE=<6148914691236517206/3>\n1 2\n".to_vec(), "text shape with product 2^64 + 2 and 2 values".into()),
+            (b"#SHAPE=<18446744073709551615/18446744073709551615>\n1\n".to_vec(), "text shape (2^64-1)^2 with 1 value".into()),
+        ];
+        oj.push((synth(1, &dict_text("<f8", false, &[4_294_967_296, 4_294_967_296], &np), &[]), "npy shape 2^32 x 2^32 without data".into()));
+        oj.push((synth(1, &dict_text("<f8", false, &[6_148_914_691_236_517_206, 3], &np), &[0u8; 16]), "npy shape with product 2^64 + 2 and 2 values".into()));
+        let mut n = 0u64;
+        for (bytes, what) in &oj {
+            for c in 0..3 {
+                n += 1;
+                if let Some((k, w, j)) = eval_cli(bytes, CONSUMERS[c], what, "overflowing-shape", &scratch) {
+                    rep.violation(k, w, j);
+                }
+            }
+        }
+        rep.part(Part {
+            name: "cli: shapes whose product overflows to the value count".into(),
+            evaluations: n,
+            nontrivial: n,
+            note: "text and npy headers whose shape product is 2^64 + (number of values): rejected by view, fold and stat".into(),
+            exhaustive: true,
+            extra: vec![],
+        });
+    }
+
     // the same damage arriving through a pipe in two writes (the valid file first, the surplus after a
     // pause), and with verbosity flags: rejection must not depend on either
     {
